@@ -371,6 +371,25 @@ func cmdCLI(args []string) {
 			f2.p = 100
 			emit(f2, []prog{tree, pk})
 		}
+		// (g) custom core sizes above half of the largest preset: a direct write far beyond 4000 cells (and one that wraps
+		// backwards) must land where -s says, i.e. both limits follow the core size given on the command line
+		for _, s := range []int{6000, 8192, 4003} {
+			for _, tgt := range []int{s - 10, s/2 + 1003, 4001} {
+				if tgt >= s-6 || tgt < 12 {
+					continue
+				}
+				f := cliFlags{s: s, p: 4, c: 12, l: 5, F: tgt, r: 1}
+				cfg := f.progCfg()
+				far := cfg
+				far.Items = []item{insItem("MOV", "", "", 2, "", tgt), insItem("JMP", "", "", 0, "", 0), insItem("DAT", "", "#", 0, "#", 0)}
+				emit(f, []prog{far, park(cfg)})
+				// and the same through a B-indirect pointer reaching backwards
+				ind := cfg
+				ind.Items = []item{insItem("DAT", "", "#", 0, "#", tgt), insItem("MOV", "", "", 2, "@", -1), insItem("JMP", "", "", 0, "", 0), insItem("DAT", "", "#", 0, "#", 0),
+					{T: "end", Toks: []tok{num(1)}}}
+				emit(f, []prog{ind, park(cfg)})
+			}
+		}
 	}
 	w.close()
 	fmt.Printf(`{"invocations":%d,"fixed":%d,"random":%d,"single":%d}`+"\n", id, fixed, random, single)
